@@ -160,6 +160,10 @@ def run_ctor(case, bus, ex):
         def _build_nonlinear_fun(self, d):
             return nf.ZeroNonlinearFun(1, 8)
     T.append(("BaseStepper linear operator of wrong shape", lambda: BadStepper()))
+    from rv.props.c18 import invalid_trials
+    for D in (1, 2, 3):            # every documented-invalid IC option combination, in every dimension
+        for lab, fn in invalid_trials(ex, D):
+            T.append((f"ic: {lab} (D={D})", fn))
     for lab, fn in T:
         expect_value_error(bus, "ctor_restrictions", fn, (lab,), dict(restriction=lab))
     # an unsupported ETDRK order is refused as well (NotImplementedError is the documented form)
